@@ -27,7 +27,10 @@ RULE = ("case = history of <= 16 operations on an established pair (TLS 1.3 "
         "KeyUpdate split across records, heartbeat response unsolicited / "
         "request with short padding, Certificate with unknown context, "
         "CertificateRequest or NewSessionTicket sent to a server, "
-        "ChangeCipherSpec, Finished, ServerHello). After every step the "
+        "ChangeCipherSpec, Finished, ServerHello), or an endpoint that sends "
+        "heartbeat + KeyUpdate + data, closes and disappears before the "
+        "peer reads; read(max, 0) pump calls with max 0 / 1 / 7 (never more "
+        "than max returned). After every step the "
         "FIFO model must hold, heartbeat callbacks must carry exactly the "
         "request payload, the server-side client chain may change only at a "
         "completed authentication; at the end the reference receiver must "
